@@ -541,7 +541,9 @@ theorem split_core (vars : Array Var) (cons : Array Con) (n : Nat) (ia : Array N
   refine
     { outs_sound := hlkf.outs_sound, outs_complete := hlkf.outs_complete,
       ins_sound := hlkf.ins_sound, ins_complete := hlkf.ins_complete, tight := ?_,
-      bridge := ?_, conn := ?_, fresh := ?_, cover := ?_, inact_lt := ?_, flags := ?_ }
+      bridge := ?_, conn := ?_, fresh := ?_, cover := ?_, inact_lt := ?_, flags := ?_,
+      outs_nodup := fun u => by rw [s2.mono.outs, s1.mono.outs]; exact h.outs_nodup u,
+      ins_nodup := fun u => by rw [s2.mono.ins, s1.mono.ins]; exact h.ins_nodup u }
   · -- tight
     intro j hj ha
     rw [hsz] at hj
